@@ -130,7 +130,23 @@ def work(task):
             text, mg = rng.choice(mols)
             if text not in base:
                 continue
+            # a call naming files that cannot be read must fail EVERY time, whatever was typed before (and must not disturb later calls)
+            if rng.random() < 0.5:
+                seq.insert(rng.randint(0, len(seq)), "unreadable")
+                if rng.random() < 0.5:
+                    seq.insert(seq.index("unreadable") + 1, "unreadable")
             for step, cfg in enumerate(seq):
+                if cfg == "unreadable":
+                    evals += 1
+                    try:
+                        mg.get_forcefield_types(smarts_filename=os.path.join(tmp, "missing.par"), nb_filename=os.path.join(tmp, "missing.itp"))
+                        viol.append({"key": K + "[history-free]", "clause": "parameter files that cannot be read are an error on every call (no stale assigner is returned)",
+                                     "detail": {"history": seq[:step + 1]}, "input": {"text": text}})
+                        break
+                    except FfAssignmentError:
+                        raise
+                    except Exception:
+                        continue
                 st, ff, mol = typed(mg, *configs[cfg])
                 evals += 1
                 if st != "ok":
